@@ -28,6 +28,9 @@ pub struct HistCfg {
 thread_local! {
     /// forces the next world to start near the maximum price with a narrow spacing (C20 overflow corner)
     pub static FORCE_HIGH: std::cell::Cell<bool> = std::cell::Cell::new(false);
+    /// adaptive-fee constants under which the reference walk is informative (non-zero reduction and control
+    /// factor, an accumulator cap a few tick groups away)
+    pub static AF_BIAS: std::cell::Cell<bool> = std::cell::Cell::new(false);
 }
 
 fn log_uniform(w: &mut World, lo_bits: u32, hi_bits: u32) -> u128 {
@@ -120,12 +123,13 @@ pub fn build_world(seed: u64, tokens: &str, rewards: bool, adaptive: bool, rec: 
         let filter = pick(&mut w, &[1u16, 5, 30, 60]);
         let decay = filter + pick(&mut w, &[1u16, 10, 120, 600]);
         let max_acc_cap = (u32::MAX as u64 / gs as u64).min(u32::MAX as u64) as u32;
+        let bias = AF_BIAS.with(|c| c.get());
         let c = crate::world2::AfConstants {
             filter_period: filter,
             decay_period: decay,
-            reduction_factor: pick(&mut w, &[0u16, 1, 500, 5000, 9999]),
-            adaptive_fee_control_factor: pick(&mut w, &[0u32, 1, 100, 4000, 50000, 99999]),
-            max_volatility_accumulator: pick(&mut w, &[0u32, 10_000, 35_000, 350_000, 3_000_000, max_acc_cap]).min(max_acc_cap),
+            reduction_factor: if bias { pick(&mut w, &[2500u16, 5000, 9999]) } else { pick(&mut w, &[0u16, 1, 500, 5000, 9999]) },
+            adaptive_fee_control_factor: if bias { pick(&mut w, &[100u32, 4000, 50000]) } else { pick(&mut w, &[0u32, 1, 100, 4000, 50000, 99999]) },
+            max_volatility_accumulator: (if bias { pick(&mut w, &[25_000u32, 35_000, 60_000, 120_000]) } else { pick(&mut w, &[0u32, 10_000, 35_000, 350_000, 3_000_000, max_acc_cap]) }).min(max_acc_cap),
             tick_group_size: gs,
             major_swap_threshold_ticks: (pick(&mut w, &[1u32, 8, 64, 1000]) as i32).min(spacing as i32 * 88) as u16,
         };
@@ -754,6 +758,7 @@ pub fn run(cfg: &HistCfg, rec: &mut Recorder) {
     for h in 0..cfg.histories {
         let seed = cfg.seed.wrapping_mul(1_000_003).wrapping_add(h as u64);
         FORCE_HIGH.with(|c| c.set(cfg.sdk && h % 4 == 1));
+        AF_BIAS.with(|c| c.set(cfg.adaptive && h % 2 == 0));
         let (mut w, sc) = build_world(seed, &cfg.tokens, cfg.rewards, cfg.adaptive, rec);
         if FORCE_HIGH.with(|c| c.replace(false)) {
             whale_corner(&mut w, &sc, rec);
